@@ -567,12 +567,12 @@ def PathEvalInit(body, st):
     return ("unknown", "")
 
 
-def r6(ck, F):
+def r6(ck, F, rid="C08.R6"):
     V = "alloc::vec::Vec<S>"
     be = F.impl_method(SUBSCRIBE, V, "enabled")
     bc = F.impl_method(SUBSCRIBE, V, "register_callsite")
     bh = F.impl_method(SUBSCRIBE, V, "max_level_hint")
-    if not (ck.anchor("C08.R6", "Vec<S>::enabled", be) and ck.anchor("C08.R6", "Vec<S>::register_callsite", bc) and ck.anchor("C08.R6", "Vec<S>::max_level_hint", bh)):
+    if not (ck.anchor(rid, "Vec<S>::enabled", be) and ck.anchor(rid, "Vec<S>::register_callsite", bc) and ck.anchor(rid, "Vec<S>::max_level_hint", bh)):
         return
     e = [show(p.ret) for p in PathEval(be).run() if p.end == "return"]
     e_all = len(e) == 1 and e[0].startswith("all(iter(")
@@ -636,23 +636,23 @@ def r6(ck, F):
                 problems.append("children %s are summarised as never although all of them may enable" % (kids,))
         problems = [x for x in problems if x]
     if e_all and not problems and len(table) >= 1 + 3 + 9:
-        ck.ok("C08.R6", key, fn=bc.path, detail={"/".join(k) or "(empty)": v for k, v in sorted(table.items())})
+        ck.ok(rid, key, fn=bc.path, detail={"/".join(k) or "(empty)": v for k, v in sorted(table.items())})
     elif e_all:
-        ck.bad("C08.R6", key, where(bc.raw["sp"]), "; ".join(sorted(set(problems))[:3]) or "table incomplete (%d rows)" % len(table), fn=bc.path)
+        ck.bad(rid, key, where(bc.raw["sp"]), "; ".join(sorted(set(problems))[:3]) or "table incomplete (%d rows)" % len(table), fn=bc.path)
     else:
-        ck.bad("C08.R6", key, where(be.raw["sp"]), "Vec::enabled is %s; unrecognised combination" % e, fn=be.path)
+        ck.bad(rid, key, where(be.raw["sp"]), "Vec::enabled is %s; unrecognised combination" % e, fn=be.path)
     # hint: max over children with None propagating; empty -> OFF
     hp = PathEval(bh, max_paths=4000).run()
     has_q = any(t["callee"].get("method") == "branch" for bb, t in bh.calls())
     has_max = any(t["callee"].get("path", "").endswith("cmp::max") for bb, t in bh.calls())
     off0 = any(s["k"] == "assign" and "use" in s["rv"] and (s["rv"]["use"].get("const") or {}).get("def", "").endswith("LevelFilter::OFF") for i, j, s in bh.stmts())
     if has_q and has_max and off0:
-        ck.ok("C08.R6", "Vec<S>::max_level_hint: None if any child has none, else the max; empty -> OFF", fn=bh.path)
+        ck.ok(rid, "Vec<S>::max_level_hint: None if any child has none, else the max; empty -> OFF", fn=bh.path)
     else:
-        ck.bad("C08.R6", "Vec<S>::max_level_hint: None if any child has none, else the max; empty -> OFF", where(bh.raw["sp"]),
+        ck.bad(rid, "Vec<S>::max_level_hint: None if any child has none, else the max; empty -> OFF", where(bh.raw["sp"]),
                "`?` on child hint: %s, max: %s, OFF start: %s" % (has_q, has_max, off0), fn=bh.path)
     if e_all:
-        ck.ok("C08.R6", "Vec<S>::enabled = all(children)", fn=be.path)
+        ck.ok(rid, "Vec<S>::enabled = all(children)", fn=be.path)
 
 
 def r7(ck, F, rid="C08.R7"):
@@ -682,6 +682,28 @@ def r7(ck, F, rid="C08.R7"):
         ck.bad(rid, "pick_level_hint has the None-layer branches, evaluated on the live layers", where(b.raw["sp"]), "; ".join(problems), fn=b.path)
     else:
         ck.ok(rid, "pick_level_hint has the None-layer branches, evaluated on the live layers (Option<S>::None hint OFF is corrected at composition)", fn=b.path)
+
+
+def envfilter_matcher_refresh(ck, F, rid="C08.R11"):
+    rc = F.body("tracing_subscriber::filter::env::EnvFilter::register_callsite")
+    if not ck.anchor(rid, "EnvFilter::register_callsite", rc):
+        return
+    # the matcher found for a span callsite is (re)stored on *every* registration: the interest-cache rebuild is how an
+    # edited filter (Handle::modify + add_directive) gets its per-callsite matchers rebuilt from the new directives
+    keys_ = "EnvFilter::register_callsite stores the matcher it found on every registration (a rebuild refreshes it)"
+    ins = [bb for bb, t in rc.calls() if t["callee"].get("method") == "insert" and "HashMap" in (t["callee"].get("path") or "")
+           and ("by_cs" in str(rc.origin(t["argv"][0])) or "callsite::Identifier" in str(rc.origin(t["argv"][0])))]
+    if len(ins) == 1:
+        g, _ = guards_of(rc, ins[0])
+        allowed = ("arg1.has_dynamics", "discr(write(arg1.by_cs))", "discr(try_write(arg1.by_cs))", "discr(matcher(arg1.dynamics, arg2))", "is_span(arg2)")
+        extra = [(t, v) for t, v in g if t not in allowed and t not in ("0", "1")]
+        if extra:
+            ck.bad(rid, keys_, where(rc.raw["sp"]), "the insert is additionally conditioned on %s: a callsite the filter already knew keeps the matcher built from the "
+                   "directives it had then" % [t[:60] for t, v in extra], fn=rc.path)
+        else:
+            ck.ok(rid, keys_, fn=rc.path)
+    else:
+        ck.bad(rid, keys_, where(rc.raw["sp"]), "%d insertions into by_cs (expected 1)" % len(ins), fn=rc.path)
 
 
 def envfilter_interest(ck, F, rid="C08.R11"):
@@ -760,6 +782,7 @@ def envfilter_interest(ck, F, rid="C08.R11"):
                "while EnvFilter::enabled rejects such a span when it is more verbose than every span directive", fn=rc.path)
     else:
         ck.ok(rid, keyk, fn=rc.path)
+    envfilter_matcher_refresh(ck, F, rid)
     key = "EnvFilter::register_callsite publishes `always` only for what the static directives enable or a stored span matcher covers"
     if rows and not always_bad:
         ck.ok(rid, key, fn=rc.path)
